@@ -544,6 +544,11 @@ macro_rules! op_assign {
               },
               x => todo!("{:?}", x),
             };
+            #[cfg(feature = "matrix")]
+            if let Err(err) = check_logical_index_lengths(&fxn_input[0], &fxn_input[2..]) {
+              plan.borrow_mut().pop();
+              return Err(err);
+            }
             let plan_brrw = plan.borrow();
             let mut new_fxn = &plan_brrw.last().unwrap();
             new_fxn.solve();
@@ -746,6 +751,11 @@ pub fn subscript_ref(sbscrpt: &Subscript, sink: &Value, source: &Value, env: Opt
         },
         _ => unreachable!(),
       };
+      #[cfg(feature = "matrix")]
+      if let Err(err) = check_logical_index_lengths(&fxn_input[0], &fxn_input[2..]) {
+        plan.borrow_mut().pop();
+        return Err(err);
+      }
       let plan_brrw = plan.borrow();
       let mut new_fxn = &plan_brrw.last().unwrap();
       new_fxn.solve();
